@@ -29,6 +29,20 @@ _tealer_loaded = False
 OUT_DIR = None
 
 
+def release_tealer_caches():
+    """tealer memoises per-block stack ASTs in unbounded lru_caches keyed by block objects, which keeps every contract a
+    worker has analysed alive (1-2 GB per worker in the thorough tiers).  Called BETWEEN cases only - never between a
+    perturbation and the observation it is compared with - so no history channel that C14 watches is cut."""
+    import functools
+    import gc
+    m = sys.modules.get("tealer.analyses.utils.stack_ast_builder")
+    if m is not None:
+        for v in vars(m).values():
+            if isinstance(v, functools._lru_cache_wrapper):
+                v.cache_clear()
+    gc.collect()
+
+
 def import_tealer():
     """Import tealer from the tree under test, with its DEBUG logging silenced."""
     global _tealer_loaded
